@@ -224,7 +224,11 @@ with compile_els (fuel : nat) (e : els) (st : state) {struct fuel} : M R :=
   | ENone => Ok ([C0], st)
   | EBlock b =>                                                (* compileStmts(ctx, stmts.List): no commentStmt, no Block *)
       x <- compile_stmts f b st ;; let '(bl, st1) := x in
-      Ok (C0 :: bl ++ [C0], st1)
+      (* gogen ifStmt.End: an else block holding exactly one if statement is printed as "else if" *)
+      Ok (match b with
+          | SCons (SIf _ _ _ _ _ _) SNil => C0 :: bl
+          | _ => C0 :: bl ++ [C0]
+          end, st1)
   | EIf s =>
       x <- compile_stmt f s st ;; let '(sl, st1) := x in
       Ok (C0 :: sl, st1)                                       (* "} else" NL directive NL "if ..." *)
